@@ -71,14 +71,14 @@ def code_lines(path):
     return out
 
 
-def gen_mutants(files, rnd, per_file_numeric=12):
+def gen_mutants(files, rnd, per_file_numeric=12, only_numeric=False):
     muts = []
     for f in files:
         path = os.path.join("/repo/src", f)
         lines = code_lines(path)
         for (i, ln) in lines:
             code = ln.split("//")[0]
-            for pat, rep in OPS:
+            for pat, rep in ([] if only_numeric else OPS):
                 for m in re.finditer(pat, code):
                     muts.append({"file": f, "line": i, "col": m.start(), "old": m.group(0), "new": rep, "kind": "op"})
         # numeric literals: a sample per file (tables are huge)
@@ -90,7 +90,7 @@ def gen_mutants(files, rnd, per_file_numeric=12):
             for m in NUM.finditer(code):
                 nums.append((i, m.start(), m.group(1)))
         rnd.shuffle(nums)
-        for (i, col, old) in nums[:(45 if f in ('hardcode.rs', 'version.rs') else per_file_numeric)]:
+        for (i, col, old) in nums[:(per_file_numeric if only_numeric else (45 if f in ('hardcode.rs', 'version.rs') else per_file_numeric))]:
             v = int(old)
             muts.append({"file": f, "line": i, "col": col, "old": old, "new": str(v + 1 if v < 255 else v - 1), "kind": "num"})
     for k, m in enumerate(muts):
@@ -256,7 +256,8 @@ def main():
     files = opt("--files", ",".join(FILES)).split(",")
     os.makedirs(os.path.join(OUT, "traces"), exist_ok=True)
     rnd = random.Random(seed)
-    muts = gen_mutants(files, rnd)
+    nums = int(opt("--nums", "0"))
+    muts = gen_mutants(files, rnd, per_file_numeric=nums or 12, only_numeric=bool(nums))
     rnd.shuffle(muts)
     if limit:
         muts = muts[:limit]
